@@ -20,7 +20,7 @@ func init() {
 // the bytes present, and every value present under an id is byte-identical to a value that was
 // put under it. The process may also die right after any commit (later commits are lost).
 //
-//verif:harness C17.commit_boundaries unwind=60 timeout=120
+//verif:harness C17.commit_boundaries unwind=60 timeout=240/600 wall=1200/3600
 //verif:use kv
 //verif:param N=2/3
 func vhC17CommitBoundaries() {
@@ -31,7 +31,7 @@ func vhC17CommitBoundaries() {
 	vsAssume(s.record >= s.kv.held() && s.record <= vhCap)
 	id := vsBytesN("id", 32)
 	vsAssume(!bytes.Equal(id, node[:]))
-	ln := vsU64("len")
+	ln := uint64(vsU32("len") & 0x1fffff) // lengths are below 2^21 (assumed below); narrow terms help the solver
 	vsAssume(ln <= 2*vhCap)
 	content := vsBytesN("content", int(ln))
 	key := xor(id, node[:])
@@ -84,7 +84,7 @@ func vhC17CommitBoundaries() {
 // persisted figure is at most 95% of the capacity and otherwise the distance of the farthest
 // retained item (decoded the same way admission decodes distances).
 //
-//verif:harness C17.reopen unwind=60 timeout=120
+//verif:harness C17.reopen unwind=60 timeout=240/600 wall=1200/3600
 //verif:use kv
 //verif:param N=2/3
 func vhC17Reopen() {
